@@ -65,4 +65,172 @@ theorem idxSync_update [WOps α] (s : Pdf α) (h : Nat) (w : α) (hs : IdxSync s
         · exact ⟨hs.fwd, hs.bwd, hs.fresh⟩
         · exact hs
 
+structure Sync (data : Array Nat) (idx : Nat → Option Nat) (next : Nat) : Prop where
+  fwd : ∀ i (hi : i < data.size), idx data[i] = some i
+  bwd : ∀ h i, idx h = some i → data[i]? = some h
+  fresh : ∀ h, next ≤ h → idx h = none
+
+theorem Sync.lt {data idx next} (hs : Sync data idx next) {h i} (e : idx h = some i) : i < data.size := by
+  have := hs.bwd h i e
+  rcases Nat.lt_or_ge i data.size with h | h
+  · exact h
+  · rw [Array.getElem?_eq_none h] at this; cases this
+
+theorem Sync.get {data idx next} (hs : Sync data idx next) {h i} (e : idx h = some i) (hi : i < data.size) :
+    data[i] = h := by
+  have := hs.bwd h i e
+  rw [Array.getElem?_eq_getElem hi] at this
+  exact Option.some.inj this
+
+theorem sync_removeLast {data idx next} (hs : Sync data idx next) (hn : 0 < data.size) :
+    Sync data.pop (setIdx idx (data[data.size - 1]'(by omega)) none) next := by
+  constructor
+  · intro i hi
+    simp only [Array.size_pop] at hi
+    simp only [Array.getElem_pop, setIdx]
+    have h1 := hs.fwd i (by omega)
+    have h2 := hs.fwd (data.size - 1) (by omega)
+    have : data[i] ≠ data[data.size - 1] := by
+      intro e; rw [e, h2] at h1; simp at h1; omega
+    simp [this, h1]
+  · intro h i e
+    simp only [setIdx] at e
+    split at e
+    · cases e
+    · rename_i hne
+      have hi := hs.lt e
+      have hg := hs.get e hi
+      have : i ≠ data.size - 1 := by
+        intro e2; subst e2; exact hne hg.symm
+      rw [Array.getElem?_pop]
+      have : i < data.size - 1 := by omega
+      simp [this, hg, hi]
+  · intro h hh
+    simp only [setIdx]
+    split
+    · rfl
+    · exact hs.fresh h hh
+
+theorem sync_removeSwap {data idx next} (hs : Sync data idx next) (i : Nat) (hi : i + 1 < data.size) :
+    Sync (data.swap i (data.size - 1) (by omega) (by omega)).pop
+      (setIdx (setIdx idx (data[i]'(by omega)) none) (data[data.size - 1]'(by omega)) (some i)) next := by
+  have hi0 : i < data.size := by omega
+  have hl0 : data.size - 1 < data.size := by omega
+  have fi := hs.fwd i hi0
+  have fl := hs.fwd (data.size - 1) hl0
+  have hne : data[i] ≠ data[data.size - 1] := by
+    intro e; rw [e, fl] at fi; simp at fi; omega
+  constructor
+  · intro j hj
+    simp only [Array.size_pop, Array.size_swap] at hj
+    simp only [Array.getElem_pop, Array.getElem_swap, setIdx]
+    by_cases e : j = i
+    · subst e; simp
+    · have fj := hs.fwd j (by omega)
+      have h1 : j ≠ data.size - 1 := by omega
+      have h2 : data[j] ≠ data[data.size - 1] := by
+        intro e2; rw [e2, fl] at fj; simp at fj; omega
+      have h3 : data[j] ≠ data[i] := by
+        intro e2; rw [e2, fi] at fj; simp at fj; omega
+      simp [e, h1, h2, h3, fj]
+  · intro h j e
+    simp only [setIdx] at e
+    rw [Array.getElem?_pop]
+    simp only [Array.size_swap]
+    split at e
+    · rename_i hh
+      cases e
+      have : i < data.size - 1 := by omega
+      simp [this, hh, hi0]
+    · rename_i hh
+      split at e
+      · cases e
+      · rename_i hh2
+        have hj := hs.lt e
+        have hg := hs.get e hj
+        have h1 : j ≠ data.size - 1 := by
+          intro e2; subst e2; exact hh hg.symm
+        have h2 : j ≠ i := by
+          intro e2; subst e2; exact hh2 hg.symm
+        have : j < data.size - 1 := by omega
+        simp [this, h1, h2, hj, hg]
+  · intro h hh
+    simp only [setIdx]
+    have := hs.fresh h hh
+    split
+    · rename_i e
+      have := hs.fresh _ (e ▸ hh)
+      rw [this] at fl; cases fl
+    · split
+      · rfl
+      · exact this
+
+theorem IdxSync.sync {s : Pdf α} (hs : IdxSync s) : Sync s.data s.idx s.next := ⟨hs.fwd, hs.bwd, hs.fresh⟩
+
+theorem idxSync_remove [WOps α] (s : Pdf α) (h : Nat) (hs : IdxSync s) : IdxSync (s.remove h) := by
+  unfold Pdf.remove
+  split
+  · exact hs
+  · rename_i i hi
+    split
+    · rename_i hd
+      split
+      · rename_i h1
+        have hi0 : i = 0 := by omega
+        have hg := hs.sync.get hi hd
+        constructor
+        · intro j hj; simp at hj
+        · intro h' j e
+          simp only [setIdx] at e
+          split at e
+          · cases e
+          · rename_i hne
+            have hj := hs.sync.lt e
+            have := hs.sync.get e hj
+            have : j = i := by omega
+            subst this
+            exact absurd (by assumption : s.data[j] = h').symm hne
+        · intro h' hh
+          simp only [setIdx]
+          split
+          · rfl
+          · exact hs.fresh h' hh
+      · rename_i hne1
+        split
+        · exact hs
+        · split
+          · simp only
+            split
+            · rename_i e
+              have hl : s.data[i] = s.data[s.data.size - 1] := by congr 1; omega
+              have := sync_removeLast hs.sync (by omega)
+              rw [← hl] at this
+              exact ⟨this.fwd, this.bwd, this.fresh⟩
+            · rename_i e
+              have := sync_removeSwap hs.sync i (by omega)
+              split <;> exact ⟨this.fwd, this.bwd, this.fresh⟩
+          · exact hs
+    · exact hs
+
+theorem idxSync_step [WOps α] (s : Pdf α) (op : Op α) (hs : IdxSync s) : IdxSync (s.step op) := by
+  cases op with
+  | add w => exact idxSync_add s w hs
+  | update h w => exact idxSync_update s h w hs
+  | remove h => exact idxSync_remove s h hs
+  | clear => exact idxSync_clear s
+  | sample r => exact hs
+
+theorem idxSync_run [WOps α] (ops : List (Op α)) : ∀ (s : Pdf α), IdxSync s → IdxSync (s.run ops) := by
+  induction ops with
+  | nil => intro s hs; exact hs
+  | cons op ops ih => intro s hs; exact ih _ (idxSync_step s op hs)
+
+/-- positions hold distinct handles -/
+theorem IdxSync.inj {s : Pdf α} (hs : IdxSync s) {i j : Nat} (hi : i < s.data.size) (hj : j < s.data.size)
+    (e : s.data[i] = s.data[j]) : i = j := by
+  have h1 := hs.fwd i hi
+  have h2 := hs.fwd j hj
+  rw [e, h2] at h1
+  exact (Option.some.inj h1).symm
+
 end OmplModel.Pdf
